@@ -656,6 +656,55 @@ def scenario_slot_owns_signal(r):
     return " ".join((accs + " ".join(parts) + " O 5 1 2000 M " + " ".join(main)).split())
 
 
+def scenario_one_shot(r):
+    """the one-shot idiom: a handler co-owns (shared_ptr) the sigc::connection of its own slot and disconnects
+    through it; once the program has dropped its handle, the connection object dies inside the library call that
+    destroys the functor (sweep after the emission, erase on an outside disconnect, clear, signal destruction,
+    invalidation by a dying trackable) - that is, while its own slot_rep is being destroyed"""
+    rk = r.choice("iiv")
+    acc = 0 if r.random() < 0.2 else -1
+    accs = "A 0 %s " % r.choice(["awalk 2", "awalkrev 2"]) if acc == 0 else ""
+    use_t = r.random() < 0.4
+    main = ["gnew 0 %s %d %d" % (rk, acc, r.randint(0, 1)), "cempty 1", "cshare 1"]
+    if use_t:
+        main += ["tnew 0"]
+    nby = r.randint(0, 2)
+    for k in range(nby):
+        main += ["snew %d %s 3 p 0" % (10 + k, rk), "gconn 0 %d %d %d 0" % (10 + k, 10 + k, r.randint(0, 1)), "sdel %d" % (10 + k)]
+    if use_t and r.random() < 0.6:
+        main += ["snew 0 %s 5 %s 1 0" % (rk, r.choice("mnkb"))]
+        tracked = True
+    else:
+        main += ["snew 0 %s 5 p 0" % rk]
+        tracked = False
+    main += ["gconn 0 0 2 %d 0" % r.randint(0, 1), "casg 1 2"]
+    keep2 = r.random() < 0.5
+    if not keep2:
+        main += ["cdel 2"]
+    main += ["sdel 0", "crel 1", "probe"]
+    how = r.choice(["self", "self", "outside", "clear", "gdel", "tdel"])
+    script5 = []
+    if how == "self":
+        script5 = ["cdisc 1"] + (["cq 1"] if r.random() < 0.5 else [])
+        main += ["gemit 0 %d 1" % r.randint(0, 9), "gq 0", "gemit 0 %d 1" % r.randint(0, 9)]
+    elif how == "outside" and keep2:
+        main += ["cdisc 2"]
+    elif how == "clear":
+        main += ["gclear 0"]
+    elif how == "tdel" and tracked:
+        main += ["tdel 0"]
+    else:
+        main += ["gdel 0"]
+    main += ["probe"] + (["cq 2", "cdel 2"] if keep2 else [])
+    if how != "gdel" and not (how == "tdel" and not tracked) and not (how == "outside" and not keep2):
+        main += ["gq 0", "gdel 0"]
+    main += ["cdel %d" % (10 + k) for k in range(nby)]
+    if use_t:
+        main += ["tdel 0"]
+    main += ["probe"]
+    return " ".join((accs + "S 3 a 3 S 5 a 5 %s O 5 1 4001 M " % " ".join(script5) + " ".join(main)).split())
+
+
 SCENARIOS = [scenario_owner_sweep] * 6 + [scenario_slot_owns_signal] * 5 + [scenario_last_handle] * 3 + [scenario_blocked_transfers] * 3 + [scenario_deep_recursion]
 
 
